@@ -30,6 +30,23 @@
 (* replay of an old prefix, late / early start).  The sequencer and the    *)
 (* book are deterministic functions of that.                               *)
 (* After an Error the transformer is discarded, as the reconnect does.     *)
+(*                                                                         *)
+(* Connection establishment (barter-data/src/lib.rs ExchangeWsStream::init,*)
+(* subscriber/validator.rs WebSocketSubValidator::validate):               *)
+(*   subscribe -> wait for `expected` confirmations; a depth frame that    *)
+(*   arrives BEFORE the first confirmation is discarded, one that arrives  *)
+(*   between the first and the last expected confirmation is buffered      *)
+(*   (Binance: expected_responses = 1, so nothing is ever buffered)        *)
+(*   -> REST snapshots -> Transformer::init(map, snapshots)                *)
+(*   -> process_buffered_events(transformer, buffered): every buffered     *)
+(*      frame goes through the sequencer (Dropped / Admitted / Error)      *)
+(*   -> the consumer is handed the snapshot events and the admitted        *)
+(*      buffered updates.                                                  *)
+(* What the consumer receives, per instrument and IN ORDER, is state       *)
+(* (`emitted`); the local book is the fold of it (ConsumerFold), and       *)
+(* BookValid speaks about that book.  The specification's emission order   *)
+(* is snapshot first (InitOrder = "snapshot-first"); the other order is    *)
+(* kept as a constant only so that TLC can show it violates BookValid.     *)
 (***************************************************************************)
 EXTENDS Integers, Sequences, FiniteSets, TLC
 
@@ -39,7 +56,10 @@ CONSTANTS INSTR,       \* instruments sharing one connection
           EVOLUTIONS,  \* set of change sequences  <<[side, p, a], ...>>  (all of one length M)
           MaxEvents,   \* most diff events an evolution is grouped into
           MaxDeliver,  \* MC bound: deliveries per behaviour
-          MaxReinit    \* MC bound: re-initialisations per behaviour
+          MaxReinit,   \* MC bound: re-initialisations per behaviour
+          EXPECTED,    \* MC: possible numbers of expected subscription confirmations (Binance: {1})
+          MaxBuf,      \* MC bound: frames buffered during one subscription validation
+          InitOrder    \* "snapshot-first" (the specification) | "buffered-first" (negative test only)
 
 VARIABLES rule,        \* "Spot" | "Futures"
           chg,         \* [INSTR -> evolution]
@@ -47,6 +67,8 @@ VARIABLES rule,        \* "Spot" | "Futures"
           snap,        \* [INSTR -> snapshot id S of the current connection]
           sq,          \* [INSTR -> [processed, lastId, status]]  the sequencer (+ error latch)
           book,        \* [INSTR -> [bids, asks, seq]]            the local book
+          expected,    \* confirmations the validator waits for (fixed per behaviour)
+          emitted,     \* [INSTR -> what the consumer received on this connection, in order]
           conn,        \* "up" | "down"  (shared connection)
           notices,     \* reconnect notices emitted so far
           nreinit,     \* re-initialisations so far
@@ -55,7 +77,7 @@ VARIABLES rule,        \* "Spot" | "Futures"
           clean,       \* ghost: [INSTR -> [phase, next]] is the delivery so far a clean one?
           last         \* observation: the step that produced this state
 
-vars == <<rule, chg, cut, snap, sq, book, conn, notices, nreinit, ndeliv, admitted, clean, last>>
+vars == <<rule, chg, cut, snap, sq, book, expected, emitted, conn, notices, nreinit, ndeliv, admitted, clean, last>>
 
 \* the local book is an OrderBook; pure operators of that module are used through OB
 OB == INSTANCE OrderBook WITH bids <- << >>, asks <- << >>, seq <- 0, last <- 0,
@@ -117,13 +139,13 @@ Outcome(r, e, s) ==
 Fresh(S) == [processed |-> 0, lastId |-> S, status |-> "ok"]
 
 \* ghost automaton of "a gap-free in-order delivery preceded by strictly older messages"
-Older(r, i, k)  == IF r = "Spot" THEN Evu(i, k) <= snap[i] ELSE Evu(i, k) < snap[i]
+Older(r, i, k, S) == IF r = "Spot" THEN Evu(i, k) <= S ELSE Evu(i, k) < S
 Covers(r, i, k, S) == IF r = "Spot" THEN EvU(i, k) <= S + 1 /\ S + 1 <= Evu(i, k)
                                     ELSE EvU(i, k) <= S /\ S <= Evu(i, k)
 CleanStart == [phase |-> "pre", next |-> 0]
-CleanStep(c, r, i, k) ==
-  CASE c.phase = "pre" -> IF Older(r, i, k) THEN c
-                          ELSE IF Covers(r, i, k, snap[i]) THEN [phase |-> "run", next |-> k + 1]
+CleanStep(c, r, i, k, S) ==
+  CASE c.phase = "pre" -> IF Older(r, i, k, S) THEN c
+                          ELSE IF Covers(r, i, k, S) THEN [phase |-> "run", next |-> k + 1]
                           ELSE [phase |-> "dirty", next |-> 0]
     [] c.phase = "run" -> IF k = c.next THEN [phase |-> "run", next |-> k + 1] ELSE [phase |-> "dirty", next |-> 0]
     [] OTHER           -> c
@@ -133,33 +155,98 @@ CleanStep(c, r, i, k) ==
 (***************************************************************************)
 Obs(a, i, k, out) == [a |-> a, i |-> i, k |-> k, out |-> out]
 
-InitWith(r, ch, ct, S) ==
-  /\ rule = r /\ chg = ch /\ cut = ct /\ snap = S
-  /\ sq = [i \in INSTR |-> Fresh(S[i])]                       \* Sequencer::new(snapshot.sequence)
-  /\ book = [i \in INSTR |-> TruthOf(ch[i], S[i])]            \* the snapshot event replaces the book
-  /\ conn = "up" /\ notices = 0 /\ nreinit = 0 /\ ndeliv = 0
-  /\ admitted = [i \in INSTR |-> << >>]
-  /\ clean = [i \in INSTR |-> CleanStart]
+(***************************************************************************)
+(* What the consumer receives.  "S": snapshot event (k = snapshot id),     *)
+(* "U": update built from event k, "E": the sequence error raised by k.    *)
+(***************************************************************************)
+EItem(t, i, k) == [t |-> t, i |-> i, k |-> k]
+
+\* OrderBook::update applied by the consumer (event lists built from the ground truth never repeat a
+\* price, so the update has exactly one result)
+ApplyItem(b, it) ==
+  CASE it.t = "S" -> Truth(it.i, it.k)                         \* *self = snapshot
+    [] it.t = "U" -> LET e == Event(it.i, it.k) IN CHOOSE nb \in OB!UpdateResults(b, e.b, e.a, e.u) : TRUE
+    [] OTHER      -> b
+RECURSIVE FoldItems(_, _)
+FoldItems(b, items) == IF items = << >> THEN b ELSE FoldItems(ApplyItem(b, Head(items)), Tail(items))
+
+(***************************************************************************)
+(* Establishing a connection with snapshot ids S after `buf` = the frames  *)
+(* <<[i, k], ..>> the validator buffered: Transformer::init, then          *)
+(* process_buffered_events runs every buffered frame through the sequencer.*)
+(* (After an Error the consumer sees nothing more of this connection.)     *)
+(***************************************************************************)
+Frame(i, k) == [i |-> i, k |-> k]
+
+ConnStart(S) == [sq |-> [i \in INSTR |-> Fresh(S[i])],                  \* Sequencer::new(snapshot.sequence)
+                 res |-> [i \in INSTR |-> << >>],
+                 admitted |-> [i \in INSTR |-> << >>],
+                 clean |-> [i \in INSTR |-> CleanStart],
+                 down |-> FALSE]
+
+StepBuffered(st, S, f) ==
+  IF st.down THEN st
+  ELSE LET i == f.i  k == f.k  e == Event(i, k)  o == Outcome(rule, e, st.sq[i])
+           cl == [st.clean EXCEPT ![i] = CleanStep(@, rule, i, k, S[i])]
+       IN CASE o = "Dropped"  -> [st EXCEPT !.clean = cl]
+            [] o = "Admitted" -> [st EXCEPT !.clean = cl,
+                                            !.sq[i] = [processed |-> @.processed + 1, lastId |-> e.u, status |-> "ok"],
+                                            !.res[i] = Append(@, EItem("U", i, k)),
+                                            !.admitted[i] = Append(@, k)]
+            [] OTHER          -> [st EXCEPT !.clean = cl, !.sq[i].status = "err",
+                                            !.res[i] = Append(@, EItem("E", i, k)), !.down = TRUE]
+
+RECURSIVE RunBuffered(_, _, _)
+RunBuffered(st, S, buf) == IF buf = << >> THEN st ELSE RunBuffered(StepBuffered(st, S, Head(buf)), S, Tail(buf))
+
+\* the connection as the consumer finds it; prev = the books the consumer held before
+Connected(S, buf, prev) ==
+  LET st == RunBuffered(ConnStart(S), S, buf)
+      em == [i \in INSTR |-> IF InitOrder = "snapshot-first" THEN <<EItem("S", i, S[i])>> \o st.res[i]
+                                                               ELSE st.res[i] \o <<EItem("S", i, S[i])>>]
+  IN [sq |-> st.sq, emitted |-> em, admitted |-> st.admitted, clean |-> st.clean,
+      book |-> [i \in INSTR |-> FoldItems(prev[i], em[i])],
+      conn |-> IF st.down THEN "down" ELSE "up",
+      notice |-> IF st.down THEN 1 ELSE 0]
+
+ValidBuffer(x, buf) == /\ (x = 1 => buf = << >>)                       \* validation ends with the first confirmation
+                       /\ \A j \in DOMAIN buf : buf[j].i \in INSTR /\ buf[j].k \in 1..NEv(buf[j].i)
+
+NoBooks == [i \in INSTR |-> OB!MkBook(OB!EmptyMap, OB!EmptyMap, 0)]   \* OrderBook::default()
+
+InitWithBuf(r, ch, ct, S, x, buf) ==
+  /\ rule = r /\ chg = ch /\ cut = ct /\ snap = S /\ expected = x
+  /\ ValidBuffer(x, buf)
+  /\ LET c == Connected(S, buf, NoBooks) IN
+       /\ sq = c.sq /\ book = c.book /\ emitted = c.emitted /\ admitted = c.admitted /\ clean = c.clean
+       /\ conn = c.conn /\ notices = c.notice
+  /\ nreinit = 0 /\ ndeliv = 0
   /\ last = Obs("Init", "", 0, "")
+
+InitWith(r, ch, ct, S) == InitWithBuf(r, ch, ct, S, 1, << >>)
 
 M == Len(CHOOSE e \in EVOLUTIONS : TRUE)      \* (bounded runs: all evolutions have one length)
 
-Init == \E r \in RULES, ch \in [INSTR -> EVOLUTIONS], ct \in [INSTR -> Cuts(M, MaxEvents)], S \in [INSTR -> 0..M] :
-          InitWith(r, ch, ct, S)
+Frames == {Frame(i, k) : i \in INSTR, k \in 1..MaxEvents}
+Bufs == UNION {[1..n -> Frames] : n \in 0..MaxBuf}
+
+Init == \E r \in RULES, ch \in [INSTR -> EVOLUTIONS], ct \in [INSTR -> Cuts(M, MaxEvents)], S \in [INSTR -> 0..M],
+           x \in EXPECTED, buf \in Bufs :
+          InitWithBuf(r, ch, ct, S, x, buf)
 
 Deliverable(i, k) == conn = "up" /\ k \in 1..NEv(i)
 
 Ghosts(i, k, out) ==
-  /\ clean' = [clean EXCEPT ![i] = CleanStep(@, rule, i, k)]
+  /\ clean' = [clean EXCEPT ![i] = CleanStep(@, rule, i, k, snap[i])]
   /\ ndeliv' = ndeliv + 1
   /\ last' = Obs("Deliver", i, k, out)
-  /\ UNCHANGED <<rule, chg, cut, snap, nreinit>>
+  /\ UNCHANGED <<rule, chg, cut, snap, nreinit, expected>>
 
 \* Ok(None): the transformer emits nothing
 DeliverDropped(i, k) ==
   /\ Deliverable(i, k)
   /\ Outcome(rule, Event(i, k), sq[i]) = "Dropped"
-  /\ UNCHANGED <<sq, book, conn, notices, admitted>>
+  /\ UNCHANGED <<sq, book, emitted, conn, notices, admitted>>
   /\ Ghosts(i, k, "Dropped")
 
 \* Ok(Some(update)): metadata advances, OrderBookEvent::Update(OrderBook::new(u, .., bids, asks))
@@ -171,6 +258,7 @@ DeliverAdmitted(i, k) ==
        /\ sq' = [sq EXCEPT ![i] = [processed |-> @.processed + 1, lastId |-> e.u, status |-> "ok"]]
        /\ \E nb \in OB!UpdateResults(book[i], e.b, e.a, e.u) : book' = [book EXCEPT ![i] = nb]
   /\ admitted' = [admitted EXCEPT ![i] = Append(@, k)]
+  /\ emitted' = [emitted EXCEPT ![i] = Append(@, EItem("U", i, k))]
   /\ UNCHANGED <<conn, notices>>
   /\ Ghosts(i, k, "Admitted")
 
@@ -181,26 +269,30 @@ DeliverError(i, k) ==
   /\ Outcome(rule, Event(i, k), sq[i]) = "Error"
   /\ sq' = [sq EXCEPT ![i].status = "err"]
   /\ conn' = "down" /\ notices' = notices + 1
+  /\ emitted' = [emitted EXCEPT ![i] = Append(@, EItem("E", i, k))]
   /\ UNCHANGED <<book, admitted>>
   /\ Ghosts(i, k, "Error")
 
-\* the reconnect: new snapshots (any ids), new transformer, books replaced by the snapshots
-ReinitWith(S) ==
+\* the (re)connection: new snapshots (any ids), new transformer, buffered frames processed, the
+\* consumer receives the snapshot events (which replace its books) and the admitted updates
+ReinitWithBuf(S, buf) ==
   /\ conn = "down"
+  /\ ValidBuffer(expected, buf)
   /\ snap' = S
-  /\ sq' = [i \in INSTR |-> Fresh(S[i])]
-  /\ book' = [i \in INSTR |-> Truth(i, S[i])]
-  /\ conn' = "up" /\ nreinit' = nreinit + 1
-  /\ admitted' = [i \in INSTR |-> << >>]
-  /\ clean' = [i \in INSTR |-> CleanStart]
+  /\ LET c == Connected(S, buf, book) IN
+       /\ sq' = c.sq /\ book' = c.book /\ emitted' = c.emitted /\ admitted' = c.admitted /\ clean' = c.clean
+       /\ conn' = c.conn /\ notices' = notices + c.notice
+  /\ nreinit' = nreinit + 1
   /\ last' = Obs("Reinit", "", 0, "")
-  /\ UNCHANGED <<rule, chg, cut, notices, ndeliv>>
+  /\ UNCHANGED <<rule, chg, cut, ndeliv, expected>>
+
+ReinitWith(S) == ReinitWithBuf(S, << >>)
 
 Dropped  == \E i \in INSTR : \E k \in 1..NEv(i) : ndeliv < MaxDeliver /\ DeliverDropped(i, k)
 Admitted == \E i \in INSTR : \E k \in 1..NEv(i) : ndeliv < MaxDeliver /\ DeliverAdmitted(i, k)
 Error    == \E i \in INSTR : \E k \in 1..NEv(i) : ndeliv < MaxDeliver /\ DeliverError(i, k)
 Reinit   == /\ nreinit < MaxReinit
-            /\ \E S \in [INSTR -> 0..M] : ReinitWith(S)
+            /\ \E S \in [INSTR -> 0..M], buf \in Bufs : ReinitWithBuf(S, buf)
 
 Next == Dropped \/ Admitted \/ Error \/ Reinit
 
@@ -232,6 +324,15 @@ Chain == \A i \in INSTR :
 BookValid == \A i \in INSTR : sq[i].status = "ok" => book[i] = Truth(i, book[i].seq)
 \* (stronger, also true: an error never touches the book)
 BookNeverWrong == \A i \in INSTR : book[i] = Truth(i, sq[i].lastId)
+
+\* the consumer's book is the fold, in emission order, of what it received on this connection
+ConsumerFold == \A i \in INSTR : book[i] = FoldItems(OB!MkBook(OB!EmptyMap, OB!EmptyMap, 0), emitted[i])
+
+\* ... which starts with the snapshot and continues with exactly the admitted updates
+EmissionOrder == \A i \in INSTR :
+  /\ Len(emitted[i]) >= 1 /\ emitted[i][1] = EItem("S", i, snap[i])
+  /\ \A j \in 2..Len(emitted[i]) : emitted[i][j].t \in {"U", "E"} /\ (emitted[i][j].t = "E" => j = Len(emitted[i]))
+  /\ [j \in 1..Len(admitted[i]) |-> emitted[i][j + 1].k] = admitted[i]
 
 \* the local book is always a well-formed map
 BookIsMap == \A i \in INSTR : OB!IsSide(book[i].bids) /\ OB!IsSide(book[i].asks)
@@ -283,5 +384,5 @@ BreakSurfaces          == [][BreakSurfacesA]_vars
 Isolation              == [][IsolationA]_vars
 AdvanceOnlyOnAdmission == [][AdvanceOnlyOnAdmissionA]_vars
 
-View == <<rule, chg, cut, snap, sq, book, conn, notices, nreinit, ndeliv, admitted, clean>>
+View == <<rule, chg, cut, snap, sq, book, expected, emitted, conn, notices, nreinit, ndeliv, admitted, clean>>
 =============================================================================
